@@ -145,10 +145,10 @@ fn req_bytes(r: &Req) -> Vec<u8> {
 }
 
 fn book_add(book: &mut Book, r: &Req) {
-    book.add_by_id(r.id, Expect { token: r.id, kind: "server response", notify: 0, query: route_of(r.route).into_bytes(), body_len: r.len, fixed_id: Some(r.id), body_prefix: vec![], body_format: 0 });
+    book.add_by_id(r.id, Expect { token: r.id, kind: "server response", notify: 0, query: route_of(r.route).into_bytes(), body_len: r.len, fixed_id: Some(r.id), body_prefix: vec![], body_format: 0, exact_body: None });
     for j in 0..r.pushes as u64 {
         let tk = push_token(r.id, j);
-        book.add_by_query(Expect { token: tk, kind: "server-pushed notify", notify: 1, query: push_method(tk).into_bytes(), body_len: r.push_len, fixed_id: Some(0), body_prefix: vec![], body_format: 0 });
+        book.add_by_query(Expect { token: tk, kind: "server-pushed notify", notify: 1, query: push_method(tk).into_bytes(), body_len: r.push_len, fixed_id: Some(0), body_prefix: vec![], body_format: 0, exact_body: None });
     }
 }
 
